@@ -42,10 +42,11 @@ SplitUrl == stage = "prepared" /\ InGrammar(cur) /\ Step("prepared", "split", St
 HostNorm == Step("split", "host", StHost(cur))
 PortDrop == Step("host", "port", StPort(cur))
 FragStrip == Step("port", "frag", StFragment(cur, opt.sf))
-PathRule == Step("frag", "path", StPath(cur))
+UnqPath  == Step("frag", "unqpath", StUnqPath(cur))
+PathRule == Step("unqpath", "path", StPath(cur))
 Requote  == Step("path", "quoted", StQuote(cur, opt.quoted))
 Repack   == Step("quoted", "done", StRepack(cur))
-Next == Prepare \/ Reject \/ SplitUrl \/ HostNorm \/ PortDrop \/ FragStrip \/ PathRule \/ Requote \/ Repack
+Next == Prepare \/ Reject \/ SplitUrl \/ HostNorm \/ PortDrop \/ FragStrip \/ UnqPath \/ PathRule \/ Requote \/ Repack
 Spec == Init /\ [][Next]_vars
 
 Done == stage = "done"
